@@ -254,12 +254,10 @@ def cells_for(tier, seed):
     return cells
 
 
-TREE_FEATURES = (gen.ALL_FEATURES - {"hyb_inc", "hyb_call", "hyb_stmtexpr", "hyb_unused_stmt", "hyb_in_cond_arm",
-                                     "hyb_in_logical", "loop", "jump", "mem", "div", "sizeof", "big_literal",
-                                     "suffix_literal", "alias", "explicit", "new",
-                                     # classes of listed findings (switched back on when the witness stops failing)
-                                     "narrow_shift_left", "cmp_narrow", "cmp_value", "widen_unsigned_from_signed",
-                                     "compound_assign_narrow", "logical_mixed"})
+# explicit list (new generator features must not leak into this check unnoticed); the classes of listed findings
+# (narrow_shift_left, cmp_narrow, cmp_value, widen_unsigned_from_signed, narrow_cond_arms, logical_mixed) are
+# switched back on through the `features` of a finding whose witness stops failing
+TREE_FEATURES = frozenset({"narrow", "shift", "logical", "cond", "cast", "unary", "if", "compound_assign", "imm", "pred"})
 
 
 def run_check(ctx):
